@@ -2,6 +2,15 @@
 HOOK_COMMITS = []
 NOT_APPLICABLE = {}
 CLAIMS = {
+    "C10": dict(
+        text="spec/FrameIndiff.tla (an instance of Geometry.tla) models a problem as four frames - mesh, material / beam-section axes, constraints, loads - moved together by exact rational isometries; TLC checks AllFramesEqual and the "
+        "isometry invariants over all motion sequences and rejects a motion that forgets one part. Every TLC frame is replayed as a metamorphic test on the real code: elastic (isotropic, orthotropic with moved axes; static and one Newmark step), "
+        "thermal, Euler-Bernoulli and Timoshenko cantilevers in 2D and 3D - the moved problem is meshed/moved with the public motions, constrained and loaded in the moved frame, solved, and compared with the transformed baseline solution "
+        "(vectors rotated, beam rotations as axial vectors incl. the determinant for reflections, energies equal) at 1e-8.",
+        note="Trusted: TLC for the exact isometries. The baseline numbers come from the implementation itself in the identity frame (metamorphic), so a defect that is itself frame-indifferent is invisible here (C01/C02 cover those). HyperElastic is not in the problem list yet.",
+        technique="TLA+ group-action model enumerated by TLC; each isometry replayed as a metamorphic solve on the real code",
+        design_ref="DESIGN.md 6/C10",
+    ),
     "C08": dict(
         text="spec/Geometry.tla accumulates the public motions (translation, rotation by the Pythagorean angle atan2(4,3) about coordinate axes through rational centres, reflections) as an exact rational affine map; TLC enumerates "
         "every sequence of up to 1 (quick) / 2 (thorough) motions and checks that the map stays an isometry with the right parity. Every frame is replayed on unstructured meshes of the integer pentagon (2-D, also moved out of the plane "
